@@ -10,16 +10,28 @@ from pathlib import Path
 sys.path.insert(0, str(Path(__file__).resolve().parent))
 from seed_eval import ALL, evaluate  # noqa: E402
 
-root = Path(sys.argv[1])
+import os
+from concurrent.futures import ThreadPoolExecutor
+
+root = Path(sys.argv[1]).resolve()
 out = {}
-for d in sorted(p.parent for p in root.glob("**/patch.diff")):
+PAR = int(os.environ.get("BENIGN_PAR", "1"))
+
+
+def one(d: Path):
     r = evaluate(d, ALL, skip_suite=True)
     bad = {p: c for p, c in r.get("checks", {}).items() if c["exit"] != 0}
-    out[str(d)] = {"error": r.get("error"), "non_silent": {p: (c["exit"], c["lines"][:2]) for p, c in bad.items()}}
+    rec = {"error": r.get("error"), "non_silent": {p: (c["exit"], c["lines"][:2]) for p, c in bad.items()}}
     try:
-        (d / "result.json").write_text(json.dumps({"checks_run": sorted(r.get("checks", {})), "non_silent": out[str(d)]["non_silent"], "error": r.get("error"), "how": "tools/benign_eval.py: patch applied in a fresh scratch worktree of /repo HEAD, every quick check run with JSTAT_REPO pointing at it"}, indent=1))
+        (d / "result.json").write_text(json.dumps({"checks_run": sorted(r.get("checks", {})), "non_silent": rec["non_silent"], "error": r.get("error"), "how": "tools/benign_eval.py: patch applied in a fresh scratch worktree of /repo HEAD, every quick check run with JSTAT_REPO pointing at it"}, indent=1))
     except OSError:
         pass
-    print(d.name, d.parent.parent.name, "ALL SILENT" if not bad and not r.get("error") else json.dumps(out[str(d)])[:600], flush=True)
+    return d, rec, bad, r
+
+
+with ThreadPoolExecutor(max_workers=PAR) as ex:
+    for d, rec, bad, r in ex.map(one, sorted(p.parent for p in root.glob("**/patch.diff"))):
+        out[str(d)] = rec
+        print(d.name, d.parent.parent.name, "ALL SILENT" if not bad and not r.get("error") else json.dumps(rec)[:600], flush=True)
 if len(sys.argv) > 2:
     Path(sys.argv[2]).write_text(json.dumps(out, indent=1))
